@@ -77,7 +77,7 @@ PTypeOK(pt, role) ==
 (* clock arithmetic of the code (network.go, validateSlotTime, currentEstimatedRound), in half seconds *)
 Special(k) == k = ZERO \/ k >= 1000
 Alias(k) == IF k = H62 THEN 0 ELSE k             \* the slot whose start time the code computes for k
-Early(h, t) == IF h = H62 /\ OverflowGuard THEN TRUE
+Early(h, t) == IF h >= H62 /\ OverflowGuard THEN TRUE       \* 2^62+Base, 2^63, 2^64-1 are beyond MaxInt64/12
                ELSE ~Special(h) /\ Alias(h) > t.s   \* slotEnd(current) - 50ms before slotStart(h); 2^63 and 2^64-1 wrap to genesis
 Late(h, role, t) == TTL(role) >= 0 /\ (Special(h) \/ t.s > Alias(h) + TTL(role))
 EstRound(h, t) ==        \* estimated round of a message for slot h received at t
